@@ -15,7 +15,9 @@ RULE = (
     "override, shuffle) and sow_samples/grow/reap crop runs (batch size / "
     "count, grow order) with n = 1..8, arguments drawn from choice lists or "
     "from a harness callable that logs what it returned or all fixed as "
-    "runner constants (no sampled argument at all), runner constants, "
+    "runner constants (no sampled argument at all); a function that is "
+    "undefined (NaN in every output) on every second or third setting; "
+    "runner constants, "
     "engine pickle / csv, a FRESH Sampler object on the same file between "
     "any two runs, and a second long-lived (rival) Sampler taking turns with "
     "the first; numpy.random seeded from the case.  Oracle after each run: "
@@ -76,6 +78,10 @@ def run_case(case):
     engine = case["engine"]
     spec = {"vars": [["out", []], ["E", []]], "sizes": {}, "ret": "tuple",
             "log": None}
+    if case.get("nan_mod"):
+        # the function is undefined (NaN for every output) at some settings:
+        # such samples are rows like any other
+        spec["nan_mod"] = case["nan_mod"]
     consts = dict(case["constants"])
     A, Bv = case["a"], case["b"]
     fixed = case.get("fixed")
@@ -189,6 +195,12 @@ def run_case(case):
                 kwargs = {"n": a, "k": b, **consts}
                 for j, nm in enumerate(("out", "E")):
                     want = labelled.var_value(kwargs, j, ())
+                    if labelled.undefined_at(spec, kwargs):
+                        require(float(r[nm]) != float(r[nm]),
+                                "row-mispaired",
+                                f"{tag}: row a={a!r} b={b!r} has {nm}="
+                                f"{r[nm]!r}, f gives NaN there")
+                        continue
                     require(float(r[nm]) == want, "row-mispaired",
                             f"{tag}: row a={a!r} b={b!r} has {nm}={r[nm]!r},"
                             f" f gives {want!r}")
@@ -274,6 +286,7 @@ def strategy(draw):
     return {"a": A, "b": Bv, "b_callable": draw(st.booleans()),
             "constants": draw(st.sampled_from([{}, {"p": 3}, {"q": "u"}])),
             "engine": draw(st.sampled_from(["pickle", "csv"])),
+            "nan_mod": draw(st.sampled_from([None, None, 2, 3])),
             "fixed": draw(st.sampled_from([None, None, None, None, "none",
                                            "dict", "tuple"])),
             "np_seed": draw(st.integers(0, 2**31)), "ops": ops}
